@@ -48,3 +48,68 @@ def corpus_traces(pid):
         ops = "\n".join(l for l in open(f).read().splitlines() if not l.startswith("##")) + "\n"
         out.append(Trace("corpus:" + os.path.basename(f), ops))
     return out
+
+
+def iter_ops(result):
+    """(op tokens, result tokens without '=') pairs of a transcript"""
+    ls = result.transcript.splitlines()
+    i = 0
+    while i + 1 < len(ls):
+        if ls[i].startswith("#") or ls[i].startswith("="):
+            i += 1; continue
+        op, res = ls[i].split(), ls[i + 1].split()
+        if res and res[0] == "=":
+            yield op, res[1:]
+            i += 2
+        else:
+            i += 1
+
+
+def getattr_entries(op, res):
+    """for a getattr pair: list of (type, len or None for unavailable, data hex or None) when the answer carries details"""
+    if not res or res[0] not in ("0", "17", "18", "336"): return []
+    out = []
+    for w in res[3:]:
+        p = w.split(":")
+        if len(p) != 3: continue
+        try: ty = int(p[0], 16)
+        except ValueError: continue
+        ln = None if p[1] == "-1" else int(p[1])
+        out.append((ty, ln, None if p[2] == "-" else p[2]))
+    return out
+
+
+SECRET_ATTRS = (0x11, 0x123, 0x124, 0x125, 0x126, 0x127, 0x128)
+
+
+def protection_direct(result):
+    """C02 judged on the implementation's answers alone: one-way flags never go back on an object, a copy is never weaker than its source,
+    and a secret attribute of a protected key key is never revealed."""
+    flags, src, cls, out = {}, {}, {}, []
+    for op, res in iter_ops(result):
+        if op[0] in ("init", "fini"): flags, src, cls = {}, {}, {}
+        if op[0] == "create" and res[0] == "0":
+            for w in op[2:]:
+                if w.startswith("0="): cls[res[2]] = int.from_bytes(bytes.fromhex(w[2:]), "little")
+        if op[0] == "copy" and res[0] == "0":
+            src[res[3]] = res[2]; cls[res[3]] = cls.get(res[2])
+        if op[0] == "getattr":
+            h = res[2] if len(res) > 2 else None
+            ents = getattr_entries(op, res)
+            f = flags.setdefault(h, {})
+            for ty, ln, data in ents:
+                if ty in (0x103, 0x162, 0x210) and data in ("00", "01"):
+                    v = int(data, 16)
+                    old = f.get(ty)
+                    weaker = (ty in (0x103, 0x210) and old == 1 and v == 0) or (ty == 0x162 and old == 0 and v == 1)
+                    if weaker: out.append(("flag-weakened", "attribute 0x%x of object handle %s went from %d to %d (op `%s`)" % (ty, h, old, v, " ".join(op)[:120])))
+                    if old is None and h in src and src[h] in flags:
+                        sv = flags[src[h]].get(ty)
+                        if sv is not None and ((ty in (0x103, 0x210) and sv == 1 and v == 0) or (ty == 0x162 and sv == 0 and v == 1)):
+                            out.append(("copy-weaker", "copy %s of object %s has attribute 0x%x = %d while the source has %d" % (h, src[h], ty, v, sv)))
+                    f[ty] = v
+            if cls.get(h) in (3, 4) and (f.get(0x103) == 1 or f.get(0x162) == 0):
+                for ty, ln, data in ents:
+                    if ty in SECRET_ATTRS and (data is not None or ln is not None):
+                        out.append(("secret-revealed", "attribute 0x%x of protected key %s answered len=%s data=%s (op `%s`)" % (ty, h, ln, data, " ".join(op)[:120])))
+    return out
